@@ -31,7 +31,34 @@ type Rule struct {
 
 func always(*blockBuilder) bool { return true }
 
-func anyCoin(c Coin) bool { return len(c.PkScript) > 0 && c.PkScript[0] != txscript.OP_0 }
+func anyCoin(c Coin) bool {
+	return len(c.PkScript) > 0 && c.PkScript[0] != txscript.OP_0 && kindOf(c.PkScript) == ""
+}
+
+func (bb *blockBuilder) generic() cand {
+	cd, _ := bb.freeCoin(func(c Coin) bool { return anyCoin(c) && bb.spendable(c) })
+	return cd
+}
+
+// requiredVersion is the lowest block version the parent chain admits at the
+// block's height (BIP34 -> 2, BIP66 -> 3, BIP65 -> 4).
+func (bb *blockBuilder) requiredVersion() int32 {
+	p, v := bb.f.Params, int32(1)
+	if bb.height >= p.BIP0034Height {
+		v = 2
+	}
+	if bb.height >= p.BIP0066Height {
+		v = 3
+	}
+	if bb.height >= p.BIP0065Height {
+		v = 4
+	}
+	return v
+}
+
+func nullInput() *wire.TxIn {
+	return &wire.TxIn{PreviousOutPoint: *wire.NewOutPoint(&chainhash.Hash{}, wire.MaxPrevOutIndex), Sequence: wire.MaxTxInSequenceNum}
+}
 
 func hasSpendable(bb *blockBuilder) bool {
 	_, ok := bb.freeCoin(func(c Coin) bool { return anyCoin(c) && bb.spendable(c) })
@@ -95,16 +122,33 @@ var Catalogue = []Rule{
 	}},
 	{Name: "coinbase-script-too-short", Stage: "sanity", Need: always,
 		Apply:    func(bb *blockBuilder) { bb.txs[0].TxIn[0].SignatureScript = []byte{byte(bb.b)} },
-		EdgeNeed: always,
+		EdgeNeed: func(bb *blockBuilder) bool { return bb.height < bb.f.Params.BIP0034Height }, // two bytes cannot carry the height
 		Edge:     func(bb *blockBuilder) { bb.txs[0].TxIn[0].SignatureScript = []byte{byte(bb.b), 0x51} }},
 	{Name: "coinbase-script-too-long", Stage: "sanity", Need: always,
 		Apply: func(bb *blockBuilder) {
-			bb.txs[0].TxIn[0].SignatureScript = append(coinbaseScript(bb.b, 1), manyOps(txscript.OP_NOP, 91)...)
+			s := bb.f.cbScript(bb.height, bb.b, 1)
+			bb.txs[0].TxIn[0].SignatureScript = append(s, manyOps(txscript.OP_NOP, 101-len(s))...)
 		},
 		EdgeNeed: always,
 		Edge: func(bb *blockBuilder) {
-			bb.txs[0].TxIn[0].SignatureScript = append(coinbaseScript(bb.b, 1), manyOps(txscript.OP_NOP, 90)...)
+			s := bb.f.cbScript(bb.height, bb.b, 1)
+			bb.txs[0].TxIn[0].SignatureScript = append(s, manyOps(txscript.OP_NOP, 100-len(s))...)
 		}},
+	{Name: "non-coinbase-null-input", Stage: "sanity", Need: hasSpendable, Apply: func(bb *blockBuilder) {
+		tx := bb.newSpend(bb.generic(), 0)
+		tx.AddTxIn(nullInput())
+		bb.txs = append(bb.txs, tx)
+	}},
+	{Name: "tx-total-output-above-max-money", Stage: "sanity", Need: hasSpendable, Apply: func(bb *blockBuilder) {
+		tx := bb.newSpend(bb.generic(), 0)
+		tx.TxOut[0].Value = 21000000*100000000/2 + 1
+		tx.AddTxOut(&wire.TxOut{Value: 21000000*100000000/2 + 1, PkScript: opTrue})
+		bb.txs = append(bb.txs, tx)
+	}},
+	{Name: "block-too-big", Stage: "sanity", Need: always,
+		Apply:    func(bb *blockBuilder) { bb.sizeTo = 1000001 },
+		EdgeNeed: always,
+		Edge:     func(bb *blockBuilder) { bb.sizeTo = 1000000 }},
 	{Name: "too-many-sigops", Stage: "sanity", Need: always,
 		Apply: func(bb *blockBuilder) {
 			bb.txs[0].AddTxOut(&wire.TxOut{Value: 0, PkScript: manyOps(txscript.OP_CHECKSIG, 20001)})
@@ -129,6 +173,11 @@ var Catalogue = []Rule{
 			bb.hdr.Bits = hardBits
 		}
 	}},
+	{Name: "block-version-too-old", Stage: "context",
+		Need:     func(bb *blockBuilder) bool { return bb.requiredVersion() >= 2 },
+		Apply:    func(bb *blockBuilder) { bb.hdr.Version = bb.requiredVersion() - 1 },
+		EdgeNeed: func(bb *blockBuilder) bool { return bb.requiredVersion() >= 2 },
+		Edge:     func(bb *blockBuilder) { bb.hdr.Version = bb.requiredVersion() }},
 	{Name: "unfinalized-transaction", Stage: "bcontext", Need: hasSpendable,
 		Apply: func(bb *blockBuilder) {
 			cd, _ := bb.freeCoin(func(c Coin) bool { return anyCoin(c) && bb.spendable(c) })
@@ -151,13 +200,40 @@ var Catalogue = []Rule{
 		}},
 	{Name: "unexpected-witness", Stage: "bcontext", Need: always, Apply: func(bb *blockBuilder) {
 		// witness data in a block whose coinbase carries no witness commitment
+		bb.noCommit = true
 		bb.txs[0].TxIn[0].Witness = wire.TxWitness{make([]byte, 32)}
 	}},
 	{Name: "bad-witness-commitment", Stage: "bcontext", Need: always, Apply: func(bb *blockBuilder) {
+		bb.noCommit = true
 		bb.txs[0].TxIn[0].Witness = wire.TxWitness{make([]byte, 32)}
 		script := append([]byte{txscript.OP_RETURN, txscript.OP_DATA_36, 0xaa, 0x21, 0xa9, 0xed}, make([]byte, 32)...)
 		bb.txs[0].AddTxOut(&wire.TxOut{Value: 0, PkScript: script})
 	}},
+
+	{Name: "bad-coinbase-height", Stage: "bcontext",
+		Need: func(bb *blockBuilder) bool { return bb.height >= bb.f.Params.BIP0034Height },
+		Apply: func(bb *blockBuilder) {
+			bb.txs[0].TxIn[0].SignatureScript = append(heightPush(int64(bb.height)+1), coinbaseScript(bb.b, 0)...)
+		}},
+	{Name: "coinbase-witness-nonce-bad", Stage: "bcontext",
+		Need: func(bb *blockBuilder) bool { return bb.hasSpecial("p2wshdrop", 0) },
+		Apply: func(bb *blockBuilder) {
+			bb.addValid(bb.spendWitnessDrop(1))
+			bb.cbNonce = make([]byte, 31)
+		}},
+	{Name: "block-weight-too-big", Stage: "bcontext",
+		Need: func(bb *blockBuilder) bool { return bb.hasSpecial("p2wshdrop", 0) },
+		Apply: func(bb *blockBuilder) {
+			bb.weightTx = bb.spendWitnessDrop(0)
+			bb.addValid(bb.weightTx)
+			bb.weightTo = 4000001
+		},
+		EdgeNeed: func(bb *blockBuilder) bool { return bb.hasSpecial("p2wshdrop", 0) },
+		Edge: func(bb *blockBuilder) {
+			bb.weightTx = bb.spendWitnessDrop(0)
+			bb.addValid(bb.weightTx)
+			bb.weightTo = 4000000
+		}},
 
 	// ---- connect: checks made when the block is connected / verified for a reorganisation
 	{Name: "coinbase-pays-too-much", Stage: "connect", Need: always, Apply: func(bb *blockBuilder) { bb.cbDelta = 1 }},
@@ -268,6 +344,100 @@ var Catalogue = []Rule{
 			bb.mine[wire.OutPoint{Hash: h}] = Coin{tx.TxOut[0].Value, tx.TxOut[0].PkScript, false, bb.height}
 			bb.f.Universe[wire.OutPoint{Hash: h}] = true
 		}},
+	{Name: "too-many-sigops-p2sh", Stage: "connect",
+		Need: func(bb *blockBuilder) bool { return bb.hasSpecial("p2shsigops", 0) },
+		Apply: func(bb *blockBuilder) {
+			// 19990 legacy operations pass the context-free count; the redeem script's 11 are only seen with the spent output
+			bb.txs[0].AddTxOut(&wire.TxOut{Value: 0, PkScript: manyOps(txscript.OP_CHECKSIG, 20001-p2shSigops)})
+			bb.addValid(bb.spendKind("p2shsigops", 0, push(redeemSigops), nil))
+		},
+		EdgeNeed: func(bb *blockBuilder) bool { return bb.hasSpecial("p2shsigops", 0) },
+		Edge: func(bb *blockBuilder) {
+			bb.txs[0].AddTxOut(&wire.TxOut{Value: 0, PkScript: manyOps(txscript.OP_CHECKSIG, 20000-p2shSigops)})
+			bb.addValid(bb.spendKind("p2shsigops", 0, push(redeemSigops), nil))
+		}},
+	{Name: "p2sh-redeem-script-false", Stage: "connect",
+		Need:  func(bb *blockBuilder) bool { return bb.hasSpecial("p2shfalse", 0) },
+		Apply: func(bb *blockBuilder) { bb.addValid(bb.spendKind("p2shfalse", 0, push(redeemFalse), nil)) }},
+	{Name: "non-der-signature", Stage: "connect", // BIP66 in force: the malformed signature fails the script instead of counting as a failed check
+		Need: func(bb *blockBuilder) bool {
+			return bb.hasSpecial("nonder", 0) && bb.height >= bb.f.Params.BIP0066Height
+		},
+		Apply: func(bb *blockBuilder) { bb.addValid(bb.spendKind("nonder", 0, nil, nil)) },
+		EdgeNeed: func(bb *blockBuilder) bool {
+			return bb.hasSpecial("nonder", 0) && bb.height < bb.f.Params.BIP0066Height
+		},
+		Edge: func(bb *blockBuilder) { bb.addValid(bb.spendKind("nonder", 0, nil, nil)) }},
+	{Name: "cltv-not-met", Stage: "connect", // BIP65 in force: required lock time 2, the transaction has 1
+		Need: func(bb *blockBuilder) bool {
+			return bb.hasSpecial("cltv", 0) && bb.height >= bb.f.Params.BIP0065Height
+		},
+		Apply: func(bb *blockBuilder) {
+			tx := bb.spendKind("cltv", 0, nil, nil)
+			tx.LockTime, tx.TxIn[0].Sequence = 1, 0
+			bb.addValid(tx)
+		},
+		EdgeNeed: func(bb *blockBuilder) bool { return bb.hasSpecial("cltv", 0) },
+		Edge: func(bb *blockBuilder) {
+			tx := bb.spendKind("cltv", 0, nil, nil)
+			tx.LockTime, tx.TxIn[0].Sequence = 1, 0 // not in force: OP_NOP2
+			if bb.height >= bb.f.Params.BIP0065Height {
+				tx.LockTime = 2 // in force: exactly met
+			}
+			bb.addValid(tx)
+		}},
+	{Name: "csv-not-met", Stage: "connect", // the script requires a relative lock of 2, the input's sequence says 1
+		Need: func(bb *blockBuilder) bool { return bb.hasSpecial("csv", 1) },
+		Apply: func(bb *blockBuilder) {
+			tx := bb.spendKind("csv", 1, nil, nil)
+			tx.Version, tx.LockTime, tx.TxIn[0].Sequence = 2, 0, 1
+			bb.addValid(tx)
+		},
+		EdgeNeed: func(bb *blockBuilder) bool { return bb.hasSpecial("csv", 2) },
+		Edge: func(bb *blockBuilder) {
+			tx := bb.spendKind("csv", 2, nil, nil)
+			tx.Version, tx.LockTime, tx.TxIn[0].Sequence = 2, 0, 2
+			bb.addValid(tx)
+		}},
+	{Name: "multisig-dummy-not-null", Stage: "connect", // NULLDUMMY comes with segwit
+		Need: func(bb *blockBuilder) bool { return bb.hasSpecial("nulldummy", 0) },
+		Apply: func(bb *blockBuilder) {
+			bb.addValid(bb.spendKind("nulldummy", 0, []byte{txscript.OP_1, txscript.OP_0}, nil))
+		},
+		EdgeNeed: func(bb *blockBuilder) bool { return bb.hasSpecial("nulldummy", 0) },
+		Edge: func(bb *blockBuilder) {
+			bb.addValid(bb.spendKind("nulldummy", 0, []byte{txscript.OP_0, txscript.OP_0}, nil))
+		}},
+	{Name: "witness-script-false", Stage: "connect",
+		Need:  func(bb *blockBuilder) bool { return bb.hasSpecial("p2wshfalse", 0) },
+		Apply: func(bb *blockBuilder) { bb.addValid(bb.spendKind("p2wshfalse", 0, nil, wire.TxWitness{wsFalse})) }},
+	{Name: "witness-program-mismatch", Stage: "connect",
+		Need: func(bb *blockBuilder) bool { return bb.hasSpecial("p2wshdrop", 0) },
+		Apply: func(bb *blockBuilder) {
+			bb.addValid(bb.spendKind("p2wshdrop", 0, nil, wire.TxWitness{{}, {txscript.OP_1}}))
+		},
+		EdgeNeed: func(bb *blockBuilder) bool { return bb.hasSpecial("p2wshdrop", 0) },
+		Edge:     func(bb *blockBuilder) { bb.addValid(bb.spendWitnessDrop(1 + bb.b%500)) }},
+	{Name: "taproot-bad-signature", Stage: "connect",
+		Need: func(bb *blockBuilder) bool { return bb.hasSpecial("p2tr", 0) },
+		Apply: func(bb *blockBuilder) {
+			bb.addValid(bb.spendKind("p2tr", 0, nil, wire.TxWitness{bytes.Repeat([]byte{1}, 64)}))
+		}},
+}
+
+// spendKind builds a transaction spending the first available coin of a special kind.
+func (bb *blockBuilder) spendKind(kind string, minAge int32, sigScript []byte, wit wire.TxWitness) *wire.MsgTx {
+	cd, _ := bb.special(kind, minAge)
+	tx := bb.newSpend(cd, 0)
+	tx.TxIn[0].SignatureScript = sigScript
+	tx.TxIn[0].Witness = wit
+	return tx
+}
+
+// spendWitnessDrop spends a pay-to-witness-script-hash coin whose script drops
+// one item: the item's length is free (0..520 bytes).
+func (bb *blockBuilder) spendWitnessDrop(itemLen int) *wire.MsgTx {
+	return bb.spendKind("p2wshdrop", 0, nil, wire.TxWitness{make([]byte, itemLen), wsDrop})
 }
 
 // defaultRule is used when the catalogue is off: one fixed rule per stage.
@@ -285,6 +455,9 @@ func ruleByName(n string) *Rule {
 func (f *Factory) pickRule(bb *blockBuilder, stage string) *Rule {
 	if !f.Catalogue {
 		return ruleByName(defaultRule[stage])
+	}
+	if r := ruleByName(f.ForceRule[bb.b]); r != nil && r.Stage == stage && r.Need(bb) && !(f.HeaderMode && r.HeaderVisible) {
+		return r
 	}
 	var ok []*Rule
 	for i := range Catalogue {
